@@ -36,6 +36,7 @@ func main() {
 	list := flag.Bool("list", false, "list properties")
 	dump := flag.Bool("dump", false, "print every obligation")
 	pathsOf := flag.String("paths", "", "debug: enumerate decision-table paths of pkg:recv:func")
+	matrix := flag.Bool("matrix", false, "self-validation: evaluate all properties in one process, print what each would report, write nothing")
 	flag.Parse()
 	debug.SetGCPercent(400)
 	if *list {
@@ -49,6 +50,10 @@ func main() {
 	}
 	if *pathsOf != "" {
 		debugPaths(*repo, *pathsOf)
+		return
+	}
+	if *matrix {
+		runMatrix(*repo, *verif)
 		return
 	}
 	p := registry[*prop]
